@@ -178,6 +178,7 @@ func c20Frames(c *core.Collector, x *Ctx) {
 		}
 	}
 	special := c.Counter("phones_with_special_seed_checksum")
+	unsupportedAsked := c.Counter("unsupported_commands_requested_between_frames")
 	core.ParallelFor(len(jobs), ncpu(), func(ji int) {
 		j := jobs[ji]
 		var t *terminal.Terminal
@@ -194,6 +195,21 @@ func c20Frames(c *core.Collector, x *Ctx) {
 			w := map[string]any{"version": int(j.ver), "phone": j.phone, "command": fmt.Sprintf("%04x", uint16(cmd))}
 			tag := fmt.Sprintf("v%d|0x%04x", j.ver, uint16(cmd))
 			guard(c, func() any { return w }, func() {
+				if ci%3 == 1 {
+					// a request the simulator cannot serve produces no frame and therefore must not use up a serial number
+					un := core.Pick(core.NewRand(uint64(ji), "c20un", uint64(ci)), []consts.JT808CommandType{consts.T0104QueryParameter, consts.T0800MultimediaEventInfoUpload, consts.P8103SetTerminalParams, consts.P8104QueryTerminalParams, consts.JT808CommandType(0x0f0f)})
+					if uf := t.CreateDefaultCommandData(un); uf != nil {
+						// served after all: it is a frame like any other and takes part in the numbering
+						if rf, ok := ref.Validate(uf); ok {
+							if ci > 0 && int(rf.Serial) != (prev+1)%65536 {
+								c.Violate("frame|serial is not the previous one plus 1|"+tag, fmt.Sprintf("prev %d now %d (command %04x)", prev, rf.Serial, uint16(un)), w)
+							}
+							prev = int(rf.Serial)
+						}
+					} else {
+						unsupportedAsked.Add(1)
+					}
+				}
 				f := t.CreateDefaultCommandData(cmd)
 				w["frame"] = core.HexCap(f, 120)
 				if f == nil {
